@@ -157,6 +157,11 @@ def body(c, stats: Stats):
     else:
         ec = ex(c['conc'])
         applicable = True
+        if not gens.admissible_delta(ec, {k: ex(v) for k, v in c['delta']}):
+            # the toolkit does not check declared constraints (callers must respect them, DESIGN 2.3); with an inadmissible
+            # plug the result depends on the order in which pending substitutions are resolved, so no conclusion is "documented"
+            stats.excluded['inst-inadmissible-delta'] += 1
+            return
         expected = R.instantiate(ec, {k: ex(v) for k, v in c['delta']})
         desc = 'instantiate(%s ; %s)' % (gens.show_sugared(c['conc']), {k: gens.show_sugared(v) for k, v in c['delta']})
     res = call_rule(c)
